@@ -74,6 +74,9 @@ def cases(tier, seed):
     for k in range(12 if tier == "quick" else 80):
         out.append({"kind": "history", "cls": "history", "idx": idx, "seed": seed})
         idx += 1
+    for k in range(4 if tier == "quick" else 24):
+        out.append({"kind": "kahan", "cls": "rank:kahan_type", "idx": idx, "seed": seed})
+        idx += 1
     for k in range(24 if tier == "quick" else 200):
         out.append({"kind": "tinynull", "cls": "null:tiny_components", "idx": idx, "seed": seed})
         idx += 1
@@ -90,7 +93,31 @@ def cases(tier, seed):
 
 
 def run_case(spec, ctx, R):
-    {"rank": _rank, "intrank": _intrank, "det": _det, "moore": _moore, "history": _history, "tinynull": _tinynull}[spec["kind"]](spec, ctx, R)
+    {"rank": _rank, "intrank": _intrank, "det": _det, "moore": _moore, "history": _history, "tinynull": _tinynull, "kahan": _kahan}[spec["kind"]](spec, ctx, R)
+
+
+def _kahan(spec, ctx, R):
+    """Numerically rank-deficient matrices WITHOUT any small entry in a triangular factor: Q T D with T unit upper bidiagonal, -c on the super-
+    diagonal (c = 3, 4; n = 20 .. 40), Q unitary, D unit-quaternion diagonal.  Every |R_kk| of an unpivoted QR is 1, while
+    sigma_min = O(c^-(n-1)) is far below the documented threshold eps max(m,n) sigma_1: rank = n - 1, nullity 1 on both sides."""
+    rng = gen.rng_for(spec["seed"], "c11kahan", spec["idx"])
+    n = int(rng.choice([20, 24, 30, 40])); c_ = float(rng.choice([3.0, 4.0]))
+    T = np.eye(n) + np.diag(np.full(n - 1, -c_), 1)
+    Tq = refq.qa(np.stack([T, np.zeros_like(T), np.zeros_like(T), np.zeros_like(T)], axis=-1))
+    A = refq.matmul(refq.matmul(refq.rand_unitary(rng, n), Tq), refq.diagq(np.ones(n), n, n) * 1.0)
+    D = refq.unit_quats(rng, n)
+    A = A * D[None, :]
+    if spec["idx"] % 2:
+        A = refq.herm(A)
+    s = embed.svals(A)
+    thr = EPS * n * s[0]
+    if not (s[-1] < thr / 8 and s[-2] > thr * 8):
+        ctx.skip("rank:ground_truth", "Kahan-type matrix not clearly of numerical rank n-1 for these parameters")
+        return
+    ctx.distinct(A)
+    ctx.hit("rank:kahan_type")
+    judge_rank(ctx, R, A, n - 1, "kahan_bidiagonal", ["kahan_bidiagonal"])
+    judge_null(ctx, R, A, n - 1, "kahan_bidiagonal", ["kahan_bidiagonal"])
 
 
 def _tinynull(spec, ctx, R):
